@@ -26,6 +26,7 @@ CONSTANTS MaxObj, MaxSteps,
           CreateClasses,      \* classes Create may instantiate
           QueryClasses,       \* classes Query may ask for
           AllowClear, AllowRelate, AllowSweep, AllowQueryX,
+          AllowDeclare,       \* a query object may be built first (Declare) and evaluated later (EvalDeclared)
           CopyModes,          \* ways other than calling the class in which a new instance comes into being from a live one:
                               \* copy | deepcopy | replace | from_dao (ORM reconstruction)  - {} switches CreateFrom off
           UnregisteredModes,  \* deviation: creation modes whose allocation bypasses Symbol.__new__ ({} = as implemented)
@@ -34,9 +35,9 @@ CONSTANTS MaxObj, MaxSteps,
 
 VARIABLES next, cls, roots, fld, dead, deadR, tracked, facts, pinned,      \* R (+ pinned: I-level holder; dead = as implemented, deadR = as the property demands)
           nodes, freeIdx, instIdx, classIdx, relIndex, edges,       \* I
-          lastQ, lastRel, steps, h
+          lastQ, lastRel, steps, h, declared
 vars == <<next, cls, roots, fld, dead, deadR, tracked, facts, pinned, nodes, freeIdx, instIdx, classIdx, relIndex, edges,
-          lastQ, lastRel, steps, h>>
+          lastQ, lastRel, steps, h, declared>>
 
 AllClasses == {"Base", "Mid", "Leaf", "Other", "DA", "DB1", "DB2", "DD", "P", "C"}
 \* subclass lists in the order  [T] + recursive_subclasses(T)  (breadth of __subclasses__, then recursion)
@@ -83,7 +84,7 @@ Log(rec) == h' = IF Hist THEN Append(h, rec) ELSE h
 EmptyClassIdx == [c \in AllClasses |-> <<>>]
 Init == /\ next = 1 /\ cls = <<>> /\ roots = {} /\ fld = {} /\ dead = {} /\ deadR = {} /\ tracked = {} /\ facts = {} /\ pinned = {}
         /\ nodes = <<>> /\ freeIdx = <<>> /\ instIdx = {} /\ classIdx = EmptyClassIdx /\ relIndex = {} /\ edges = {}
-        /\ lastQ = <<>> /\ lastRel = <<>> /\ steps = 0 /\ h = <<>>
+        /\ lastQ = <<>> /\ lastRel = <<>> /\ steps = 0 /\ h = <<>> /\ declared = "-"
 
 \* ---- registry primitives (layer I) as state functions over a record  g = [nodes, free, inst, cidx, rel, edges]
 G == [nodes |-> nodes, free |-> freeIdx, inst |-> instIdx, cidx |-> classIdx, rel |-> relIndex, edges |-> edges]
@@ -164,16 +165,18 @@ C13At(T, bag) == \A o \in DOMAIN bag :
                     /\ (o \in QueryR(T) => bag[o] = 1)
                     /\ bag[o] <= 1
                     /\ (bag[o] > 0 => o \notin dead /\ cls[o] \in SubStar(T))
-Query(T) ==
+QueryAs(T, tag) ==
   /\ LET g == SweepG(G, dead)
          bag == QueryBag(g, T)
      IN /\ SetG(g)
         /\ lastQ' = <<T, bag, C13At(T, bag)>>
         /\ pinned' = IF StrongExprTable THEN pinned \cup { o \in Objs : bag[o] > 0 } ELSE pinned
-        /\ Log([a |-> "query", c |-> T, live |-> Alive, liveR |-> AliveR,
+        /\ Log([a |-> tag, c |-> T, live |-> Alive, liveR |-> AliveR,
                 must |-> QueryR(T),                                              \* each exactly once
                 may |-> { o \in Alive \ tracked : cls[o] \in SubStar(T) }])      \* survivors of clear(): unspecified
   /\ UNCHANGED <<next, cls, roots, fld, dead, deadR, tracked, facts, lastRel>>
+
+Query(T) == QueryAs(T, "query")
 
 \* C14 at the moment of the assertion: the three relations are in the graph and the fields agree
 C14At(g, f, p, c) ==
@@ -240,7 +243,27 @@ Clear ==
   /\ UNCHANGED <<next, cls, roots, fld, dead, deadR, pinned, lastQ, lastRel>>
   /\ Log([a |-> "clear", live |-> Alive, liveR |-> AliveR])
 
-Next == /\ steps < MaxSteps /\ steps' = steps + 1
+\* q = an(entity(let(T, None))) is built now and evaluated later: building touches nothing; the evaluation ranges over the
+\* instances that exist WHEN IT RUNS (not over those that existed when the query was written)
+Declare(T) ==
+  /\ AllowDeclare /\ declared = "-"
+  /\ declared' = T
+  /\ UnchangedG /\ UNCHANGED <<next, cls, roots, fld, dead, deadR, tracked, facts, pinned, lastQ, lastRel>>
+  /\ Log([a |-> "declare", c |-> T, live |-> Alive, liveR |-> AliveR])
+EvalDeclared ==
+  /\ AllowDeclare /\ declared # "-"
+  /\ QueryAs(declared, "evaldeclared")
+Step == \/ \E c \in CreateClasses : Create(c)
+        \/ \E p \in roots, m \in CopyModes : CreateFrom(p, m)
+        \/ \E o \in roots : Drop(o)
+        \/ Collect
+        \/ Sweep
+        \/ \E T \in QueryClasses : Query(T)
+        \/ \E T \in QueryClasses : QueryX(T)
+        \/ \E T \in QueryClasses : QueryFirst(T)
+        \/ \E p \in roots, c \in roots : Relate(p, c)
+        \/ Clear
+NextOld == /\ steps < MaxSteps /\ steps' = steps + 1
         /\ \/ \E c \in CreateClasses : Create(c)
            \/ \E p \in roots, m \in CopyModes : CreateFrom(p, m)
            \/ \E o \in roots : Drop(o)
@@ -251,6 +274,10 @@ Next == /\ steps < MaxSteps /\ steps' = steps + 1
            \/ \E T \in QueryClasses : QueryFirst(T)
            \/ \E p \in roots, c \in roots : Relate(p, c)
            \/ Clear
+Next == /\ steps < MaxSteps /\ steps' = steps + 1
+        /\ \/ (Step /\ UNCHANGED declared)
+           \/ \E T \in QueryClasses : Declare(T)
+           \/ (EvalDeclared /\ declared' = "-")
 Spec == Init /\ [][Next]_vars
 
 \* ---- properties
